@@ -26,7 +26,7 @@ RULE = (
     "salt, group label, left / right operand, tuple member, nested tuple member, several at once; plus random generated "
     "programs with hostile literals. distinct_nontrivial = distinct (payload, position) where the payload contains a "
     "quote or a backslash."
-    " Added later: every quoting payload also inside non-ASCII / non-printable / long strings; self-referential payloads (lines of the generator's own output); payloads inside block and line comments."
+    " Added later: every quoting payload also inside non-ASCII / non-printable / long strings; 'mirror' payloads (round 9): printed forms of every node of the real parser's tree of the program under test and fragments of its generated code; self-referential payloads (lines of the generator's own output); payloads inside block and line comments."
 )
 ASSUMPTIONS = [
     "payloads only ever call sentinels planted by the harness; nothing destructive is attempted",
